@@ -32,9 +32,10 @@ Core Lean only (no Mathlib): this file is linked into the native driver.
 -/
 namespace HcipyVerif.Serial
 
-/-- The exceptions that matter: `KeyError`, `ValueError`, `TypeError`, `AttributeError`. -/
+/-- The exceptions that matter: `KeyError`, `ValueError`, `TypeError`, `AttributeError`,
+`NotImplementedError`. -/
 inductive Err where
-  | key | value | type | attr
+  | key | value | type | attr | notImpl
 deriving DecidableEq, Repr
 
 /-- A Python scalar as `ndarray.tolist()` produces it. -/
@@ -761,5 +762,123 @@ def writeFieldFitsM (gd : StateM Grid Tree) : StateM Field (Except Err FitsFile)
 def writeBasisFitsM (gd : StateM Grid Tree) : StateM ModeBasis (Except Err FitsFile) := fun b =>
   let (_, b') := ModeBasis.toDictMWith gd b
   (writeBasisFits b', b')
+
+/-! ## file names, formats and the dispatch of `read_*` / `write_*` -/
+
+inductive Fmt where
+  | asdf | fits | pickle
+deriving DecidableEq, Repr
+
+/-- `str.endswith` on the characters of the name -/
+def endsWith (name suffix : List Char) : Bool := suffix.isSuffixOf name
+
+/-- the suffixes `_guess_file_format` looks for (explicit character lists: proofs reduce them) -/
+def sAsdf : List Char := ['a', 's', 'd', 'f']
+def sFits : List Char := ['f', 'i', 't', 's']
+def sFitsGz : List Char := ['f', 'i', 't', 's', '.', 'g', 'z']
+def sPkl : List Char := ['p', 'k', 'l']
+def sPickle : List Char := ['p', 'i', 'c', 'k', 'l', 'e']
+
+/-- `_guess_file_format(filename)` -/
+def guessFormat (name : List Char) : Option Fmt :=
+  if endsWith name sAsdf then some .asdf
+  else if endsWith name sFits || endsWith name sFitsGz then some .fits
+  else if endsWith name sPkl || endsWith name sPickle then some .pickle
+  else none
+
+def Fmt.name : Fmt → String
+  | .asdf => "asdf" | .fits => "fits" | .pickle => "pickle"
+
+/-- the `fmt` string the branches `if fmt == 'asdf' … elif fmt == 'fits' … elif fmt == 'pickle'`
+accept -/
+def Fmt.ofName? (s : String) : Option Fmt :=
+  if s = "asdf" then some .asdf else if s = "fits" then some .fits
+  else if s = "pickle" then some .pickle else none
+
+/-- first step of every reader and writer: `if fmt is None: fmt = _guess_file_format(filename)`,
+`ValueError` when nothing could be guessed -/
+def resolveName (name : List Char) (fmt : Option String) : Except Err String :=
+  match fmt with
+  | some s => .ok s
+  | none =>
+    match guessFormat name with
+    | some f => .ok f.name
+    | none => .error .value
+
+/-- last step: the `if / elif` chain; anything else is `NotImplementedError` -/
+def dispatch (s : String) : Except Err Fmt :=
+  match Fmt.ofName? s with
+  | some f => .ok f
+  | none => .error .notImpl
+
+/-- the format a reader / writer ends up with for `(filename, fmt)` -/
+def formatOf (name : List Char) (fmt : Option String) : Except Err Fmt :=
+  (resolveName name fmt).bind dispatch
+
+/-- what a file holds: an asdf file, a FITS file, or a pickle of `P` -/
+inductive Stored (P : Type) where
+  | asdf (f : AsdfFile)
+  | fits (f : FitsFile)
+  | pickle (p : P)
+
+/-- `write_grid(grid, filename, fmt)`: the format is resolved, `grid.to_dict()` is computed (for
+every format), then the format's writer runs.  A pickle holds the object (default pickling). -/
+def writeGridFile (lib : AsdfLib) (name : List Char) (fmt : Option String) (g : Grid) :
+    Except Err (Stored Grid) := do
+  let s ← resolveName name fmt
+  let _tree := g.toDict
+  match ← dispatch s with
+  | .asdf => (writeGridAsdf lib g).map .asdf
+  | .fits => (writeGridFits lib g).map .fits
+  | .pickle => .ok (.pickle g)
+
+/-- `read_grid(filename, fmt)`; a file of another format than the one asked for is refused by the
+library that opens it -/
+def readGridFile (name : List Char) (fmt : Option String) (c : Stored Grid) : Except Err Grid := do
+  let s ← resolveName name fmt
+  match ← dispatch s, c with
+  | .asdf, .asdf file => readGridAsdf file
+  | .fits, .fits file => readGridFits file
+  | .pickle, .pickle g => .ok g
+  | _, _ => .error .value
+
+/-- `write_field`: a pickle holds `Field.__getstate__()` (`l` = memory layout of the data) -/
+def writeFieldFile (lib : AsdfLib) (l : Layout) (name : List Char) (fmt : Option String) (f : Field) :
+    Except Err (Stored PickleState) := do
+  let s ← resolveName name fmt
+  let _tree := f.toDict
+  match ← dispatch s with
+  | .asdf => (writeFieldAsdf lib f).map .asdf
+  | .fits => (writeFieldFits f).map .fits
+  | .pickle => .ok (.pickle (f.getState l))
+
+def readFieldFile (name : List Char) (fmt : Option String) (c : Stored PickleState) :
+    Except Err Field := do
+  let s ← resolveName name fmt
+  match ← dispatch s, c with
+  | .asdf, .asdf file => readFieldAsdf file
+  | .fits, .fits file => readFieldFits file
+  | .pickle, .pickle st => .ok (Field.setState st)
+  | _, _ => .error .value
+
+/-- `write_mode_basis`: `mode_basis.to_dict()` is computed before the dispatch, so a basis without
+grid is refused (`AttributeError`) in every format, pickle included -/
+def writeBasisFile (lib : AsdfLib) (name : List Char) (fmt : Option String) (b : ModeBasis) :
+    Except Err (Stored ModeBasis) := do
+  let s ← resolveName name fmt
+  let _tree ← b.toDict
+  match ← dispatch s with
+  | .asdf => (writeBasisAsdf lib b).map .asdf
+  | .fits => (writeBasisFits b).map .fits
+  | .pickle => .ok (.pickle b)
+
+def readBasisFile (name : List Char) (fmt : Option String) (c : Stored ModeBasis) :
+    Except Err ModeBasis := do
+  let s ← resolveName name fmt
+  match ← dispatch s, c with
+  | .asdf, .asdf file => readBasisAsdf file
+  | .fits, .fits file => readBasisFits file
+  | .pickle, .pickle b => .ok b
+  | _, _ => .error .value
 
 end HcipyVerif.Serial
